@@ -2,8 +2,8 @@ SPECIFICATION MCSpec
 VIEW view
 INVARIANTS NotBlocked
 CONSTANTS
- Gated = {"tag.delete", "m:delete", "manifest.put", "m:put", "blob.put", "b:put", "image.importTar", "image.copy", "image.copy+dt", "image.copy+fr"}
- RelOnErr = {"image.importTar", "image.exportTar", "image.copy", "image.copy+dt", "image.copy+fr"}
+ Ungated = {}
+ LeakOnErr = {"image.config", "m:config"}
  StubReads = {}
  NS = 2
  MaxLen = 2
